@@ -238,5 +238,5 @@ pub fn program(data: &[u8]) -> (crate::props::c18::Program, Vec<u8>) {
     })
     .collect();
   let schedule: Vec<u8> = data.get(c.pos..).unwrap_or(&[]).iter().take(48).map(|b| b % 3).collect();
-  (Program { tree, threads }, schedule)
+  (Program { tree, threads, warm: None }, schedule)
 }
